@@ -142,3 +142,20 @@ CHECKS["C08"] = {
         rapid_job("booking", "./verifh/c08", "TestBookingIntersects", 2000, 10000),
     ],
 }
+
+CHECKS["C09"] = {
+    "rule": ("(a) bounded-exhaustive scripts of {send write/remove per id, receive} driven directly through mergeCollectionExcess and minibus.DropExcess (the script is the schedule), every "
+             "script up to a length bound over 1-2 ids x initial presence, plus rapid-drawn longer scripts over 3 ids; oracle: each delivered change equals an independently computed merge of the "
+             "pending changes of its id (ADD.REMOVE cancels, REMOVE.ADD is REPLACE, old values chain), nothing extra, folded view == store, DropExcess hands over the latest message; "
+             "(b) API level: lossy Value/Collection Pull with scripted consumer pacing, every write bounded by a 5 s guard, folded view converges after a sentinel; backpressured writer/consumer "
+             "lock-step; one real-time case where a stalled backpressured consumer makes Value.Set return an error after ~5 s. non-trivial = script where >=2 changes of one id were pending "
+             "together and a receive fell between sends; distinct by script"),
+    "assumptions": ["the 5 s send timeout is observed in real time (accepted window 4-9 s)", "'eventually' is a 5-15 s bounded wait"],
+    "jobs": [
+        enum_job("merge-exh", "./pkg/resource", "TestVerifC09MergeExhaustive", shards={Q: 4, T: 16}, timeout={Q: 600, T: 3000}),
+        enum_job("dropexcess-exh", "./verifh/c09", "TestDropExcessExhaustive", timeout={Q: 600, T: 3000}),
+        rapid_job("lossy-api", "./verifh/c09", "TestLossyCollectionPull|TestLossyValuePull", 2000, 15000, timeout={Q: 240, T: 1200}),
+        rapid_job("lockstep", "./verifh/c09", "TestBackpressureLockstep", 500, 3000, shards_t=4),
+        enum_job("send-timeout", "./verifh/c09", "TestBackpressureSendTimeout"),
+    ],
+}
